@@ -571,6 +571,17 @@ func gateShapes() []*script {
 	return []*script{mk(2, false, a), mk(2, true, b), mk(3, false, b), mk(1, false, a)}
 }
 
+// capped: a tree on which waits do not return costs seconds per case; after
+// 60 violations in one process the rest of a stream is skipped (recorded as
+// inconclusive, the violations found stay reported).
+func capped(c *core.Ctx, stream string, idx int) bool {
+	if c.Violations() < 60 || c.Replay() {
+		return false
+	}
+	c.Inconclusive("remaining cases of the stream skipped after 60 violations in this process", stream, idx, nil)
+	return true
+}
+
 // Run is the check.
 func Run(c *core.Ctx) {
 	c.Note("rule", "cascade scripts are data (per event kind a list of rules with priority, fail flag, yields and child events with priorities, incl. non-triggering children); an independent expansion gives the expected (event, rule) invocations and failures (respecting fail-on-first-error); the real engine runs them with harness closures as actions, 1..16 workers, 1..8 cascades in flight from separate goroutines; streams: 'gate' = 4 fixed shapes x 12 hold points x 13 partner points (one goroutine held at the hold point until another passed the partner point; infeasible pairs are released), 'nested' = rule actions that wait for a nested cascade of their own (fan < workers) with a stuck predicate that accepts workers blocked in a nested wait, 'ecal' = the same scripts as ECAL sinks awaited with the built-in addEventAndWait, 'noise' = seeded random scripts with random yields/sleeps at the lock-free hook points, also under -race; oracles: stamps of action ends vs. return of AddEventAndWait, exactly-once invocation table, AllErrors() at return time and again at quiescence vs. expected failures, finish-handler count, IsFinished of every monitor handed out, stuck-state predicate for a wait that cannot return; non-trivial/distinct = distinct interleaving signatures of the hook trace and feasible gate cases")
@@ -595,6 +606,9 @@ func Run(c *core.Ctx) {
 		n = c.Pick(2500, 30000)
 	}
 	for k := 0; k < n; k++ {
+		if capped(c, "noise", k) {
+			break
+		}
 		if !c.Take("noise", k) {
 			continue
 		}
@@ -607,6 +621,9 @@ func Run(c *core.Ctx) {
 		n = c.Pick(400, 3000)
 	}
 	for k := 0; k < n; k++ {
+		if capped(c, "nested", k) {
+			break
+		}
 		if c.Take("nested", k) {
 			runNested(c, k)
 		}
@@ -616,6 +633,9 @@ func Run(c *core.Ctx) {
 		n = c.Pick(500, 4000)
 	}
 	for k := 0; k < n; k++ {
+		if capped(c, "ecal", k) {
+			break
+		}
 		if !c.Take("ecal", k) {
 			continue
 		}
